@@ -589,8 +589,11 @@ def wheel_names(rng, n):
         if rng.random() < 0.3:
             parts.append(rng.choice(["1", "2abc", "10_x", "2.whl"]))
         # (mixed-case tags too: packaging lower-cases them, fixed defect D31)
-        py = ".".join(rng.sample(["py2", "py3", "cp39", "cp310", "pp39", "CP39", "Py3"], rng.randint(1, 3)))
-        abi = ".".join(rng.sample(["none", "abi3", "cp39", "cp310m", "pypy39_pp73", "None", "ABI3"], rng.randint(1, 2)))
+        # (letters whose lower case depends on context, in any field: fixed defect D38 -- `"A\u03a3.B".lower()` ends in a
+        # non-final sigma, packaging lower-cases each member of a compressed set on its own)
+        odd = rng.random() < 0.05
+        py = ".".join(rng.sample(["py2", "py3", "cp39", "cp310", "pp39", "CP39", "Py3"] + (["A\u03a3", "\u0130x"] if odd else []), rng.randint(1, 3)))
+        abi = ".".join(rng.sample(["none", "abi3", "cp39", "cp310m", "pypy39_pp73", "None", "ABI3"] + (["A\u03a3", "B\u03a3"] if odd else []), rng.randint(1, 2)))
         # (tags ending in one of the characters of ".whl" too: seed C18c, rstrip(".whl") for removesuffix)
         plat = ".".join(rng.sample(["any", "linux_x86_64", "manylinux_2_17_x86_64", "manylinux2014_x86_64", "win_amd64",
                                     "macosx_10_9_universal2", "linux_armv7l", "manylinux2014_armv7l", "musllinux_1_1_armv7l",
@@ -623,7 +626,8 @@ def run_c18(run: core.Run, n: int) -> None:
             out = "raise:InvalidWheelFilename:" + ("ext" if "extension" in str(e) else "parts")
         except Exception as e:  # noqa: BLE001
             out = "raise:" + type(e).__name__
-        run.add(core.Case("wheel", f"w.parse\t{fn}", out))
+        if fn.isascii():      # (the model lower-cases ASCII letters only; other letters are judged against packaging below)
+            run.add(core.Case("wheel", f"w.parse\t{fn}", out))
         n_oracle += 1
         rep = {"op": "wheel", "filename": fn}
         try:
